@@ -47,8 +47,11 @@ for item in "${args[@]}"; do
     "$VERIF/sim/target/release/simio" replay "$f" --root "$ROOT" >"$OUT/replay.log" 2>&1 && replay_ok="REPLAY-DID-NOT-REPRODUCE" || replay_ok="replay-reproduces"
     min="$(jq -c '.minimisation' "$f")"
   else min="-"; fi
-  case "$name" in
-    benign-*) if [ $rc = 0 ]; then verdict="quiet (as required)"; else verdict="FALSE ALARM"; fails=$((fails+1)); fi ;;
+  expect_quiet=0
+  case "$name" in benign-*) expect_quiet=1 ;; esac
+  if [ -f "$item/meta.json" ] && [ "$(jq -r 'if has("breaks_property_as_stated") then .breaks_property_as_stated else true end' "$item/meta.json")" = "false" ]; then expect_quiet=1; fi
+  case "$expect_quiet" in
+    1) if [ $rc = 0 ]; then verdict="quiet (as required)"; else verdict="FALSE ALARM"; fails=$((fails+1)); fi ;;
     *) if [ $rc = 1 ] && [ "$viol" -gt 0 ] && [ "$replay_ok" = "replay-reproduces" ]; then verdict="caught"; else verdict="MISSED"; fails=$((fails+1)); fi ;;
   esac
   echo "$name: property=$prop $verdict rc=$rc clauses=[$clauses] $replay_ok $tests min=$min"
